@@ -179,7 +179,16 @@ func c07SingleSender(p *load.Program, r *oblig.Report) {
 		for _, fn := range p.ModuleFunctions() {
 			an.EachInstr(fn, func(ins ssa.Instruction) {
 				if ci, ok := ins.(ssa.CallInstruction); ok && an.StaticCalleeIs(ci.Common(), target) {
-					callers = append(callers, an.ShortFunc(fn))
+					name := an.ShortFunc(fn)
+					dup := false
+					for _, c := range callers {
+						if c == name {
+							dup = true
+						}
+					}
+					if !dup {
+						callers = append(callers, name)
+					}
 					if _, isCall := ins.(*ssa.Call); !isCall {
 						async = true
 					}
@@ -653,10 +662,10 @@ func c08Tables(p *load.Program, r *oblig.Report) {
 	for _, tc := range tlCalls {
 		for d, child := tc.Block().Idom(), tc.Block(); d != nil; d, child = d.Idom(), d {
 			_, ci := an.IfCond(d)
-			if ci == nil || ci.Op != token.GTR || !(d.Succs[0] == child || d.Succs[0].Dominates(child)) {
+			if ci == nil || ci.Op != token.LSS || !(d.Succs[0] == child || d.Succs[0].Dominates(child)) {
 				continue
 			}
-			dx, dy := argDesc(ci.X), argDesc(ci.Y)
+			dx, dy := argDesc(ci.Y), argDesc(ci.X) // n > batchBytes is reported as batchBytes < n
 			if strings.Contains(dx, "totalSize") && strings.Contains(dy, "batchBytes") {
 				okTL = true
 			}
@@ -1273,20 +1282,45 @@ func c01RetryLoop(p *load.Program, r *oblig.Report) {
 			if be != nil && be.Op == token.EQL && errObj != nil && ((obj(be.X) == errObj && isNilIdent(be.Y)) || (obj(be.Y) == errObj && isNilIdent(be.X))) && isBreak(x.Body) && x.Else == nil {
 				nilBreakIdx = i
 			}
-			if be != nil && be.Op == token.LAND && isBreak(x.Body) && x.Else == nil {
-				l, lok := ast.Unparen(be.X).(*ast.UnaryExpr)
-				rr, rok := ast.Unparen(be.Y).(*ast.UnaryExpr)
-				if lok && rok && l.Op == token.NOT && rr.Op == token.NOT {
-					names := map[string]bool{calleeName(l.X): true, calleeName(rr.X): true}
-					argsOK := true
-					for _, u := range []*ast.UnaryExpr{l, rr} {
-						if c, ok := ast.Unparen(u.X).(*ast.CallExpr); !ok || len(c.Args) != 1 || obj(c.Args[0]) != errObj {
-							argsOK = false
+			if isBreak(x.Body) && x.Else == nil {
+				// the break condition as a boolean function of isTemporary(err) and isTransientNetworkError(err):
+				// it must be true exactly when both are false (any equivalent spelling is accepted)
+				atoms := map[string]bool{}
+				okAtoms := true
+				var eval func(e ast.Expr, env map[string]bool) bool
+				eval = func(e ast.Expr, env map[string]bool) bool {
+					switch y := ast.Unparen(e).(type) {
+					case *ast.UnaryExpr:
+						if y.Op == token.NOT {
+							return !eval(y.X, env)
+						}
+					case *ast.BinaryExpr:
+						switch y.Op {
+						case token.LAND:
+							return eval(y.X, env) && eval(y.Y, env)
+						case token.LOR:
+							return eval(y.X, env) || eval(y.Y, env)
+						}
+					case *ast.CallExpr:
+						n := calleeName(y)
+						if (n == "isTemporary" || n == "isTransientNetworkError") && len(y.Args) == 1 && obj(y.Args[0]) == errObj {
+							atoms[n] = true
+							return env[n]
 						}
 					}
-					if names["isTemporary"] && names["isTransientNetworkError"] && argsOK {
-						permBreakIdx = i
+					okAtoms = false
+					return false
+				}
+				match := true
+				for _, t := range []bool{false, true} {
+					for _, n := range []bool{false, true} {
+						if eval(x.Cond, map[string]bool{"isTemporary": t, "isTransientNetworkError": n}) != (!t && !n) {
+							match = false
+						}
 					}
+				}
+				if match && okAtoms && atoms["isTemporary"] && atoms["isTransientNetworkError"] && errObj != nil {
+					permBreakIdx = i
 				}
 			}
 		}
@@ -1535,7 +1569,7 @@ func c01RequestIdentity(p *load.Program, r *oblig.Report) {
 			}
 		}
 		lk, isLk := call.Call.Args[0].(*ssa.Lookup)
-		okRecord = idx == "param:indexes[]" && keyIsAccepted && isLk && lk.X == mu.Map && lk.Index == mu.Key
+		okRecord = idx == "param:indexes[]" && keyIsAccepted && isLk && (lk.X == mu.Map || clean(an.Shape(lk.X)) == clean(an.Shape(mu.Map))) && (lk.Index == mu.Key || clean(an.Shape(lk.Index)) == clean(an.Shape(mu.Key)))
 	})
 	r.Check(okRecord, rule, "writeMessages → each index is recorded once, under the batch that accepted the message", p.Pos(wm.Pos()), "batches[batch] = append(batches[batch], i)", "not recognised")
 }
